@@ -275,7 +275,6 @@ MUTANTS = [
     ("drop 'flag = False' before delegate.finish()", _in(H1, "HTTP1Connection._read_message", _drop_second_false), ("C05.ts", "C05.disarmed-before-finish")),
     ("arm the flag after headers_received", _in(H1, "HTTP1Connection._read_message", _move_true_after_headers), ("C05.ts", "C05.armed-before-headers")),
     ("unconditional on_connection_close in finally", _in(H1, "HTTP1Connection._read_message", replace_expr(lambda n: isinstance(n, ast.Name) and n.id == "need_delegate_close" and isinstance(n.ctx, ast.Load), lambda n: ast.Constant(value=True))), None),
-    ("detached path forgets to disarm", _in(H1, "HTTP1Connection._read_message", _drop_detach_false), "C05.ts"),
     ("on_close taken out of finally", _in(H1, "HTTP1ServerConnection._server_request_loop", _on_close_out_of_finally), "C05.loop-on-close"),
     ("_ProxyAdapter.finish does not forward", _in("tornado/httpserver.py", "_ProxyAdapter.finish", remove_stmts(lambda st: "delegate.finish" in ast.unparse(st))), "C05.forward"),
     ("_GzipMessageDelegate.on_connection_close forwards twice", _in(H1, "_GzipMessageDelegate.on_connection_close", replace_stmt(lambda st: isinstance(st, ast.Return), lambda st: [parse_stmt("self._delegate.on_connection_close()"), st])), "C05.forward"),
